@@ -245,6 +245,8 @@ def rv_src(rv):
     if rv[0] == "dict":
         return "{1: %s}" % rv_src(rv[1])
     # right-hand sides that themselves mutate a variable (possibly the one being assigned to)
+    if rv[0] == "elem":
+        return "%s[%d]" % (rv[1], rv[2])
     if rv[0] == "popof":
         return "(pop %s)" % rv[1]
     if rv[0] == "poplist":
@@ -263,6 +265,9 @@ def rv_val(rv, store):
         return ["l", [rv_val(x, store) for x in rv[1:]]]
     if rv[0] == "dict":
         return ["d", [[I(1), rv_val(rv[1], store)]]]
+    if rv[0] == "elem":
+        v = get1(store[rv[1]], ("i", rv[2]))
+        return RAISE if v == RAISE else copy.deepcopy(v)
     if rv[0] in ("popof", "poplist"):
         cur = store[rv[1]]
         if kind(cur) != "l" or not cur[1]:
@@ -312,6 +317,8 @@ def stmt_src(s):
         return "%s = consume %s" % (s[1], s[2])
     if k == "update":
         return "%s = %s{%d = %s}" % (s[1], s[2], s[3], rv_src(s[4]))
+    if k == "update2":     # several updates in one pure expression: every key / value sees the variables as they were before the statement
+        return "%s = %s{%s}" % (s[1], s[2], ", ".join("%d = %s" % (i, rv_src(v)) for i, v in s[3]))
     if k == "call":
         return "%s = h(%s)" % (s[1], s[2])
     if k == "for":
@@ -473,8 +480,22 @@ def model_apply(store, s):
         if s[1] == s[2]:
             st[s[1]] = store[s[2]]
         return st
+    if k == "update2":
+        new = copy.deepcopy(st[s[2]])
+        for i, rv in s[3]:
+            val = rv_val(rv, st)         # st is untouched until the whole expression has a value
+            if val == RAISE:
+                return RAISE
+            new = setp(new, [("i", i)], val)
+            if new == RAISE:
+                return RAISE
+        st[s[1]] = new
+        return st
     if k == "update":
-        new = setp(st[s[2]], [("i", s[3])], rv_val(s[4], st))
+        val = rv_val(s[4], st)
+        if val == RAISE:
+            return RAISE
+        new = setp(st[s[2]], [("i", s[3])], val)
         if new == RAISE:
             return RAISE
         st[s[1]] = new
@@ -542,6 +563,8 @@ def menu_lists():
         ("op", a, [], "append", ("setthen", a, lit(L(I(0)), "[0]"), SEVEN)), ("op", a, [i_(0)], "append", ("setthen", a, lit(L(L(I(0))), "[[0]]"), SEVEN)),
         ("assign", a, [i_(0)], ("popof", a)), ("op", b, [], "++", ("poplist", a)), ("op", a, [], "++", ("setthen", b, lit(L(I(0)), "[0]"), VB)),
         ("consume", c, a), ("update", b, a, 0, lit(I(5), "5")), ("call", c, a), ("for", a), ("tuple", a, b, b, a),
+        ("update2", a, a, [(0, ("elem", a, 1)), (1, ("elem", a, 0))]), ("update2", a, a, [(0, SEVEN), (1, ("elem", a, 0))]),
+        ("update2", a, a, [(0, SEVEN), (7, ONE)]), ("update2", b, a, [(0, ("elem", a, 1)), (1, ("elem", b, 0))]), ("update", a, a, 0, ("elem", a, 1)),
     ]
     return m
 
@@ -781,7 +804,7 @@ def judge(case, rs):
 
 
 def pure_rv(rv):
-    return rv[0] in ("lit", "var") or (rv[0] in ("list", "dict") and all(pure_rv(x) for x in rv[1:]))
+    return rv[0] in ("lit", "var", "elem") or (rv[0] in ("list", "dict") and all(pure_rv(x) for x in rv[1:]))
 
 
 def failed_aftermath(stmt, before, r, sig, trail):
@@ -791,6 +814,13 @@ def failed_aftermath(stmt, before, r, sig, trail):
     if r.get("st") not in ("throw", "control") or "d" not in r:
         return []
     k = stmt[0]
+    if k in ("update", "update2"):
+        got = dump_values(r["d"])
+        for v in ("a", "b", "c"):
+            if not same_value(got[v], before[v]):
+                return [Violation(sig + " result=failed-statement-changed-variable var=%s" % v,
+                                  "%s raised while evaluating a pure update expression, and %s is now %s (was %s)" % (trail, v, json.dumps(got[v])[:200], json.dumps(norm(before[v]))[:200]), norm(before[v]), got[v])]
+        return []
     if k not in ("op", "everyop", "every", "assign"):
         return []
     rv = stmt[4] if k in ("op", "everyop") else stmt[3]
